@@ -28,6 +28,42 @@ FUNCTIONS = ['dd.bdd.BDD.var', 'dd.bdd.BDD.cube', 'dd.bdd.BDD.apply', 'dd.bdd.BD
              'dd.bdd.BDD.to_expr']
 
 OPS = ['var', 'cube', 'apply_and', 'apply_implies_neg', 'add_expr', 'let_const', 'exist', 'count', 'support', 'to_expr']
+# through a dd.autoref wrapper that lives across both calls (the middle step is then the module-level
+# dd.autoref.reorder(bdd, order), or BDD.collect_garbage of the wrapper)
+AUTOREF_OPS = ['autoref_len', 'autoref_support', 'autoref_var_level']
+
+
+def mk_wrapper(A, bdd):
+    return base.make_autoref(A, bdd)
+
+
+def do_autoref(op, A, ab, U):
+    f = A.Function.__new__(A.Function)
+    f.node, f.bdd, f.manager = U, ab, ab._bdd
+    try:
+        if op == 'autoref_len':
+            return (len(f), f.dag_size)
+        if op == 'autoref_support':
+            return sorted(f.support)
+        if op == 'autoref_var_level':
+            return (f.var, int(f.level))
+    finally:
+        f.node = None
+    raise KeyError(op)
+
+
+def fresh_answer(op, bdd, U):
+    """the same quantity computed from the manager directly"""
+    if op == 'autoref_len':
+        n = len(bdd.descendants([U]))
+        return (n, n)
+    if op == 'autoref_support':
+        return sorted(bdd.support(U))
+    if op == 'autoref_var_level':
+        i = bdd._succ[abs(U)][0]
+        i = int(i)
+        return (bdd.var_at_level(i) if i < len(bdd.vars) else None, i)
+    raise KeyError(op)
 
 
 def do(op, bdd, names, U, V):
@@ -91,6 +127,32 @@ class Harness:
         self.sh.set(self.B, 'warnings', self.wrec)
         engine.FORMAT_CONCRETIZE = True        # to_expr formats node numbers
 
+    def run_autoref(self, op, m, bdd, U, u, extract):
+        c = engine.CTX
+        A = base.import_dd('dd.autoref')
+        names = m.names
+        ab = mk_wrapper(A, bdd)
+        exc = r1 = r2 = want = None
+        try:
+            r1 = do_autoref(op, A, ab, U)
+            if self.middle == 'swap':
+                A.reorder(ab, {names[1]: 0, names[0]: 1, **{n: i for i, n in enumerate(names) if i > 1}})
+            else:
+                ab.collect_garbage()
+            r2 = do_autoref(op, A, ab, U)
+            want = fresh_answer(op, bdd, U)
+        except Exception as e:
+            exc = e.with_traceback(None)
+        m.read_post()
+        if exc is not None:
+            res = base.discharge([Goal('queries_never_raise', z3.BoolVal(False))], [], extract)
+            return dict(outcome='raised:' + type(exc).__name__ + ':' + str(exc)[:80], goals=res)
+        goals = [Goal('second_answer_is_what_the_manager_says_now', z3.BoolVal(r2 == want)),
+                 Goal('reduced_ordered', m.g_inv_struct()),
+                 Goal('counts_exact_same_ledger', m.g_refs())]
+        res = base.discharge(goals, [], extract)
+        return dict(outcome='done:' + op, goals=res, witness=base.witness(extract), expect=dict(outcome='returned'))
+
     def run(self):
         c = engine.CTX
         N, L = self.N, self.L
@@ -110,9 +172,11 @@ class Harness:
         U, V = SymInt(u), SymInt(v)
         # the filler: any legal find_or_add over the held nodes and the constants
         flv = c.choose(L, 'filler-level')
-        cands = [1, -1, U, -U, V, -V]
-        flo = cands[c.choose(len(cands), 'filler-low')]
-        fhi = cands[c.choose(len(cands), 'filler-high')]
+        # (low in {TRUE, FALSE, ~v}, high in {TRUE, u, v}: enough to build, at any level, a node that is
+        # not the one just freed; every further combination multiplies the paths without adding a shape)
+        lo_c, hi_c = [1, -1, -V], [1, U, V]
+        flo = lo_c[c.choose(len(lo_c), 'filler-low')]
+        fhi = hi_c[c.choose(len(hi_c), 'filler-high')]
         for x in (flo, fhi):       # find_or_add's precondition: successors lie below the level
             if isinstance(x, SymInt):
                 ax_ = z3.If(x.z < 0, -x.z, x.z)
@@ -127,6 +191,8 @@ class Harness:
 
         exc = r1 = r2 = None
         stage = 'first'
+        if op in AUTOREF_OPS:
+            return self.run_autoref(op, m, bdd, U, u, extract)
         try:
             r1 = do(op, bdd, names, U, V)
             if op == 'to_expr':
@@ -206,7 +272,41 @@ class Harness:
         return dict(outcome='done:' + op, goals=res, witness=wit, expect=dict(outcome='returned'))
 
 
+def replay_autoref(case):
+    B = concrete.fresh_dd()
+    import dd.autoref as A
+    ext = concrete.ext_of(case)
+    bad0 = concrete.check_inv(concrete.install(case), ext)
+    if bad0:
+        return dict(violates=False, invalid_pre=True, detail=str(bad0[:3]))
+    bdd = concrete.install(case, B)
+    a = case['args']
+    names = case['names']
+    op, u, middle = a['op'], a['u'], a.get('middle', 'gc')
+    obs = dict(outcome='returned')
+    ab = mk_wrapper(A, bdd)
+    mid = 'dd.autoref.reorder(bdd, swapped order)' if middle == 'swap' else 'bdd.collect_garbage()'
+    call = f'{op} of a Function on node {u}; {mid}; {op} again'
+    try:
+        r1 = do_autoref(op, A, ab, u)
+        if middle == 'swap':
+            A.reorder(ab, {names[1]: 0, names[0]: 1, **{n: i for i, n in enumerate(names) if i > 1}})
+        else:
+            ab.collect_garbage()
+        r2 = do_autoref(op, A, ab, u)
+        want = fresh_answer(op, bdd, u)
+    except Exception as e:
+        return dict(violates=True, key=f'seq/{op}/raises', detail=f'{call} raised {e!r}',
+                    observed=dict(outcome='raised:' + type(e).__name__))
+    if r2 != want:
+        return dict(violates=True, key=f'seq/{op}/stale-answer',
+                    detail=f'{call}: first answer {r1}, second answer {r2}, the manager now says {want}', observed=obs)
+    return dict(violates=False, detail='ok', observed=obs)
+
+
 def replay(case):
+    if case.get('args', {}).get('op') in AUTOREF_OPS:
+        return replay_autoref(case)
     import warnings
     B = concrete.fresh_dd()
     ext = concrete.ext_of(case)
